@@ -46,6 +46,35 @@ structure LogOK (T : List Tx) (cs : List CTx) (c : Nat) : Prop where
 structure TreeOK (allowed covered : List Nat) (top : Bool) (t : TreeImg) : Prop where
   shape : ∃ X, TreeShape t X top ∧ (∀ q ∈ X.flatten, q ∈ allowed) ∧ (∀ q ∈ covered, q ∈ X.flatten ∧ q ∈ t.blobs)
 
+/-- the shape of the live tree a compaction works on: its fixed leaves `Xi` (all but the last one),
+    whether it has an internal root, and the first key of the last leaf (what the root knows of it) -/
+structure LiveP where
+  top : Bool := false
+  Xi : List (List Nat) := []
+  hd : Nat := 0
+
+/-- the live tree during a compaction: the chain `Xi ++ [last]`; only the last leaf is rewritten
+    (entries appended), its first key stays -/
+structure LiveOK (allowed covered : List Nat) (lv : LiveP) (t : TreeImg) (last : List Nat) : Prop where
+  shape : TreeShape t (lv.Xi ++ [last]) lv.top
+  hd : lv.Xi ≠ [] → last.headD 0 = lv.hd
+  allowed : ∀ q ∈ (lv.Xi ++ [last]).flatten, q ∈ allowed
+  covered : ∀ q ∈ covered, q ∈ (lv.Xi ++ [last]).flatten ∧ q ∈ t.blobs
+
+theorem LiveOK.treeOK {allowed covered : List Nat} {lv : LiveP} {t : TreeImg} {last : List Nat}
+    (h : LiveOK allowed covered lv t last) : TreeOK allowed covered lv.top t :=
+  ⟨⟨_, h.shape, h.allowed, h.covered⟩⟩
+
+/-- every tree of the invariant is a live tree for the parameters read off its chain -/
+theorem TreeOK.live {allowed covered : List Nat} {top : Bool} {t : TreeImg} (h : TreeOK allowed covered top t) :
+    ∃ lv last, lv.top = top ∧ LiveOK allowed covered lv t last := by
+  obtain ⟨X, hs, h1, h2⟩ := h.shape
+  have hX : X = X.dropLast ++ [X.getLast hs.ne] := (List.dropLast_concat_getLast hs.ne).symm
+  refine ⟨⟨top, X.dropLast, (X.getLast hs.ne).headD 0⟩, X.getLast hs.ne, rfl, ?_⟩
+  exact ⟨by show TreeShape t (X.dropLast ++ [X.getLast hs.ne]) top; rw [← hX]; exact hs, fun _ => rfl,
+    by show ∀ q ∈ (X.dropLast ++ [X.getLast hs.ne]).flatten, _; rw [← hX]; exact h1,
+    by show ∀ q ∈ covered, q ∈ (X.dropLast ++ [X.getLast hs.ne]).flatten ∧ _; rw [← hX]; exact h2⟩
+
 /-- segments and property tree of the manifest hold, together with the runs the log still
     replays, exactly the edges and properties of `T` -/
 structure StoreOK (T : List Tx) (cs : List CTx) (p : PImg) : Prop where
